@@ -763,6 +763,10 @@ class C20(Prop):
       'hand-written vocabulary `libraryTags` (PgProps/C20.lean)',
   ]
   assumptions = ['class names of rendered objects are Python identifiers',
+                 'update scripts run in an ES2019 engine (U+2028 / U+2029 may occur raw inside a string literal) and '
+                 'are handed to the engine as script text (IPython.display.Javascript), not embedded in an HTML '
+                 '<script> element, so `</script>` inside a literal is harmless',
+                 'element ids, css class names and property names in update scripts are developer-chosen identifiers',
                  'uncollapse paths do not contain the key "$" (F19, property C10)']
 
   # -- generation ---------------------------------------------------------------------------
